@@ -638,28 +638,44 @@ theorem cleanAt_after_sep {s s1 : St} {n : List Nat} (hm : Mem cfg n) (hg : Good
     have := (hg n f hget0 hm).append_sep
     simpa [File.content] using this
 
-theorem writeEvent_steps (hsep : cfg.sep = [c]) (plan : Nat → Fault) {a : Active} {e : List Nat} {s : St}
+/-- Either the separator is the single byte `c` (the setting of the C10 theorems), or the event set is
+    unconstrained (every byte string counts as an event: the content shape says nothing, which is all the C11
+    theorems need, for any separator). -/
+def SepOk (cfg : Config) (E : List Nat → Prop) (c : Nat) : Prop := cfg.sep = [c] ∨ ∀ x, E x
+
+theorem clean_of_all (hall : ∀ x, E x) (t : Bool) (x : List Nat) : Clean E c t x := by
+  have := Clean.evt (c := c) (t := t) .nil (hall x)
+  simpa using this
+
+theorem writeEvent_steps (hsep : SepOk cfg E c) (plan : Nat → Fault) {a : Active} {e : List Nat} {s : St}
     (he : E e) (hg : GoodInv cfg E c s) (ha : ActiveOk cfg E c s a) :
     FsSteps cfg E c s (writeEvent cfg plan a e s).st := by
   obtain ⟨hm, _, hclean⟩ := ha
   unfold writeEvent
   by_cases hnr : a.needsRecovery = true
-  · simp only [hnr, if_true, hsep]
-    have h1 := writeSep_steps (cfg := cfg) (E := E) (c := c) plan hm s
-    cases h : writeAll plan a.name [c] s with
+  · simp only [hnr, if_true]
+    have h1 : FsSteps cfg E c s (writeAll plan a.name cfg.sep s).st := by
+      rcases hsep with hsep | hall
+      · rw [hsep]; exact writeSep_steps plan hm s
+      · exact writeEvt_steps plan hm (hall _) s (fun f _ => clean_of_all hall _ _)
+    cases h : writeAll plan a.name cfg.sep s with
     | err s1 => simp only [h, R.st] at h1 ⊢; exact h1
     | crash s1 => simp only [h, R.st] at h1 ⊢; exact h1
     | ok u s1 =>
       simp only [h, R.st] at h1 ⊢
       obtain ⟨e1, e2, _⟩ := writeAll_ok h
-      have h2 := writeEvt_steps (cfg := cfg) plan hm he s1 (cleanAt_after_sep hm hg e1 e2)
+      have hc1 : CleanAt E c s1 a.name := by
+        rcases hsep with hsep | hall
+        · exact cleanAt_after_sep hm hg (by rw [e1, hsep]) e2
+        · exact fun f _ => clean_of_all hall _ _
+      have h2 := writeEvt_steps (cfg := cfg) plan hm he s1 hc1
       cases h' : writeAll plan a.name e s1 <;> simp only [h', R.st] at h2 ⊢ <;> exact h1.trans h2
   · simp only [hnr, Bool.false_eq_true, if_false]
     have h2 := writeEvt_steps (cfg := cfg) plan hm he s (hclean (by simpa using hnr))
     cases h' : writeAll plan a.name e s <;> simp only [h', R.st] at h2 ⊢ <;> exact h2
 
 /-- After a successful `write_event` the file is still fine and ends on a record boundary. -/
-theorem writeEvent_post (hsep : cfg.sep = [c]) {plan : Nat → Fault} {a a' : Active} {e : List Nat} {s s' : St}
+theorem writeEvent_post (hsep : SepOk cfg E c) {plan : Nat → Fault} {a a' : Active} {e : List Nat} {s s' : St}
     (he : E e) (hg : GoodInv cfg E c s) (ha : ActiveOk cfg E c s a)
     (h : writeEvent cfg plan a e s = .ok a' s') : ActiveOk cfg E c s' a' := by
   obtain ⟨hfs, hf, _, hn, hnr, _⟩ := writeEvent_ok h
@@ -673,13 +689,15 @@ theorem writeEvent_post (hsep : cfg.sep = [c]) {plan : Nat → Fault} {a a' : Ac
   cases hget'
   rw [hf]
   by_cases hrec : a.needsRecovery = true
-  · have h1 := (hg a.name f hget hm).append_sep
-    have := Clean.evt h1 he
-    simpa [File.content, hrec, hsep] using this
+  · rcases hsep with hsep | hall
+    · have h1 := (hg a.name f hget hm).append_sep
+      have := Clean.evt h1 he
+      simpa [File.content, hrec, hsep] using this
+    · exact clean_of_all hall _ _
   · have := Clean.evt (hclean (by simpa using hrec) f hget) he
     simpa [File.content, hrec] using this
 
-theorem writeEvents_spec (hsep : cfg.sep = [c]) (plan : Nat → Fault) (evs : List (List Nat)) :
+theorem writeEvents_spec (hsep : SepOk cfg E c) (plan : Nat → Fault) (evs : List (List Nat)) :
     ∀ (a : Active) (b : Batch) (s : St), (∀ e ∈ evs, E e) → NamesNodup s → GoodInv cfg E c s →
       ActiveOk cfg E c s a →
       FsSteps cfg E c s (writeEvents cfg plan a b s evs).2.2 ∧
@@ -742,7 +760,7 @@ theorem activeOk_after_syncAll {s s' : St} {a : Active} {f : File} (hget : fsGet
   simpa [File.content, File.syncedAll] using this
 
 /-- `on_batch` is a sequence of filesystem steps, and leaves the worker's assumptions about its file intact. -/
-theorem onBatch_spec (hsep : cfg.sep = [c]) (plan : Nat → Fault) (now : Parts) (id : Nat) (b : Batch) (s : St)
+theorem onBatch_spec (hsep : SepOk cfg E c) (plan : Nat → Fault) (now : Parts) (id : Nat) (b : Batch) (s : St)
     (hE : ∀ e ∈ b.rest, E e) (hinv : Inv cfg E c s) :
     FsSteps cfg E c s (onBatch cfg plan now id b s).2 ∧
       ∀ a, (onBatch cfg plan now id b s).2.active = some a → ActiveOk cfg E c (onBatch cfg plan now id b s).2 a := by
@@ -806,7 +824,7 @@ theorem onBatch_spec (hsep : cfg.sep = [c]) (plan : Nat → Fault) (now : Parts)
             · exact activeOk_of_fs_eq (s := s4) rfl rfl (activeOk_after_syncAll hget hfs z1 hok3)
             · exact activeOk_of_fs_eq (s := s4) rfl rfl (activeOk_of_fs_eq hfs z1 hok3)
 
-theorem onBatch_inv (hsep : cfg.sep = [c]) (plan : Nat → Fault) (now : Parts) (id : Nat) (b : Batch) (s : St)
+theorem onBatch_inv (hsep : SepOk cfg E c) (plan : Nat → Fault) (now : Parts) (id : Nat) (b : Batch) (s : St)
     (hE : ∀ e ∈ b.rest, E e) (hinv : Inv cfg E c s) : Inv cfg E c (onBatch cfg plan now id b s).2 := by
   obtain ⟨h1, h2⟩ := onBatch_spec hsep plan now id b s hE hinv
   exact ⟨h1.nodup hinv.nodup, h1.goodInv hinv.nodup hinv.good, h2⟩
